@@ -1031,6 +1031,26 @@ class PseudoNetCDFFile(PseudoNetCDFSelfReg, object):
         propd['expression'] = expr
         dimt = tmpvar.dimensions
         vardict['outf'] = self
+        if not inplace:
+            # 'A += 1', 'A[0] = 5': statements that write into a variable
+            # work on a copy, the input file is not the place of the result
+            import ast
+            for node in ast.walk(ast.parse(expr)):
+                if isinstance(node, ast.AugAssign):
+                    targets = [node.target]
+                elif isinstance(node, ast.Assign):
+                    targets = [t for t in node.targets
+                               if not isinstance(t, ast.Name)]
+                else:
+                    continue
+                for target in targets:
+                    while isinstance(target, (ast.Subscript, ast.Attribute)):
+                        target = target.value
+                    vk = getattr(target, 'id', None)
+                    if isinstance(vardict.get(vk, None), np.ndarray):
+                        if any(vardict[vk] is v
+                               for v in self.variables.values()):
+                            vardict[vk] = vardict[vk].copy()
 
         # Assign expression to new variable.
         exec(comp, None, vardict)
